@@ -157,7 +157,16 @@ fn run_case(ctx: &mut Ctx, lay: &Arc<Layout>, links: [Link; N_EX], trading0: boo
             let real = ev.real(lay);
             let Ok(tick) = catch_unwind(AssertUnwindSafe(|| process_with_audit(&mut rig2.engine, real))) else { ctx.fail(L_REPLICA, &input, format!("panic at event {k}"), "no panic".into()); break; };
             lock(&rig2.shared).next = None;
-            if tick.event != records[k].event || tick.context.sequence != records[k].context.sequence {
+            // (error texts embed the Debug rendering of the tx map, which differs between two rigs: compare their number only)
+            let same = match (&tick.event, &records[k].event) {
+                (EngineAudit::Process(a), EngineAudit::Process(b)) => {
+                    let (ra, rb) = (parse_audit(&tick.event), parse_audit(&records[k].event));
+                    let reqs = |r: &Reported| r.errors.iter().map(|(q, _)| q.clone()).collect::<Vec<_>>();
+                    a.event == b.event && a.errors.len() == b.errors.len() && ra.sent == rb.sent && ra.refused == rb.refused && reqs(&ra) == reqs(&rb) && ra.outputs == rb.outputs
+                }
+                (a, b) => a == b,
+            };
+            if !same || tick.context.sequence != records[k].context.sequence {
                 ctx.fail(L_RECORDS, &input, format!("record {k} of the run differs from stepping the same events: {:?} vs {:?}", short(&records[k]), short(&tick)), "deterministic".into());
             }
             match replica_of(&snapshot2, records[..=k].to_vec()) {
